@@ -294,7 +294,7 @@ func (d *Driver) exec(st *Step) {
 func (d *Driver) twin(st *Step) {
 	link := "proxy>" + AuthHost
 	kind := simnet.FaultDelay
-	if st.Op == "authreq" {
+	if st.Op == "authreq" || (st.Op == "pending" && st.Endpoint == "auth") {
 		link = "auth>" + map[string]string{"okta": OktaHost, "google": GoogleAPI}[d.P.Cfg.Provider]
 	}
 	if st.Sub == "slow-upstream-dial" {
@@ -312,6 +312,10 @@ func (d *Driver) twin(st *Step) {
 		b := d.W.Browser(s.B)
 		if s.Op == "authreq" {
 			d.authReq(s, b)
+			return
+		}
+		if s.Op == "pending" {
+			d.pending(s, b)
 			return
 		}
 		b.Do(d.reqOf(s))
@@ -490,6 +494,33 @@ func (d *Driver) mint(b *Browser, st *Step) {
 	c := b.Cookie(ProxyCookieName)
 	if c != nil && !ms.FromScratch {
 		s, _ = sessions.UnmarshalSession(c.Value, d.W.ProxyCipher)
+	}
+	if ms.AuthCookie {
+		// the authenticator's own session cookie, changed and sealed again under its secret
+		ac := b.Cookie(d.W.AuthCookieName())
+		if ac == nil {
+			return
+		}
+		as, err := sessions.UnmarshalSession(ac.Value, d.W.AuthCipher)
+		if err != nil {
+			return
+		}
+		if ms.Email != nil {
+			as.Email = *ms.Email
+		}
+		if ms.RefreshIn != nil {
+			as.RefreshDeadline = time.Now().Add(*ms.RefreshIn).Truncate(time.Second)
+		}
+		if ms.LifetimeIn != nil {
+			as.LifetimeDeadline = time.Now().Add(*ms.LifetimeIn).Truncate(time.Second)
+		}
+		v, err := sessions.MarshalSession(as, d.W.AuthCipher)
+		if err != nil {
+			panic(err)
+		}
+		ac.Value = v
+		d.O.sealed[v] = "minted"
+		return
 	}
 	now := time.Now()
 	if s == nil {
